@@ -172,7 +172,79 @@ def run_plan(req):
     return {"obs": [{"kind": b[0], "detail": b} for b in bad[:5]], "stats": stats}
 
 
+def run_hub(req):
+    """The calling thread's stack, as stackscope defines it (own greenlet + suspended ancestors), holding MORE frames
+    than the recursion limit: a hub greenlet is started while the main greenlet is shallow and parks; the main greenlet
+    then recurses deep and switches to the hub, which starts a worker that recurses deep again (event-loop pattern)."""
+    if greenlet is None:
+        return {"skipped": "no greenlet"}
+    n_main, n_worker, limit = req["n_main"], req["n_worker"], req["limit"]
+    box = {}
+
+    def deep(n, then):
+        if n <= 0:
+            return then()
+        return deep(n - 1, then)
+
+    def hub_body():
+        fn = greenlet.getcurrent().parent.switch("parked")
+        fn()
+
+    def at_bottom():
+        st = extract_since(None, with_contexts=False)
+        got = [f.pyframe for f in st.frames]
+        parts = []
+        g = greenlet.getcurrent()
+        f = sys._getframe()
+        while True:
+            part = []
+            while f is not None:
+                part.append(f)
+                f = f.f_back
+            parts.append(part[::-1])
+            g = g.parent
+            if g is None:
+                break
+            f = g.gr_frame
+        true = [x for part in reversed(parts) for x in part]
+        box["res"] = (len(got), len(true), got == true, repr(st.error)[:200] if st.error is not None else None,
+                      got[-1] is true[-1] if got and true else None)
+        lim = extract(StackSlice(limit=7), with_contexts=False)
+        box["limited"] = [f.pyframe for f in lim.frames] == true[-7:]
+
+    def worker_body():
+        deep(n_worker, at_bottom)
+
+    def start_worker():
+        greenlet.greenlet(worker_body).switch()
+
+    old = sys.getrecursionlimit()
+    hub = greenlet.greenlet(hub_body)
+    hub.switch()
+    try:
+        sys.setrecursionlimit(limit)
+        deep(n_main, lambda: hub.switch(start_worker))
+    except RecursionError as ex:
+        return {"harness_error": "scenario itself overflowed: %r" % (ex,)}
+    finally:
+        sys.setrecursionlimit(old)
+    obs = []
+    if "res" not in box:
+        return {"harness_error": "the worker greenlet did not run"}
+    ngot, ntrue, same, err, ends = box["res"]
+    if ntrue <= limit:
+        return {"harness_error": "stack of %d frames does not exceed the limit %d" % (ntrue, limit)}
+    if not same or err is not None:
+        obs.append({"kind": "stack deeper than the recursion limit", "detail": {"got": ngot, "true": ntrue, "error": err,
+                                                                                "ends_at_caller": ends}})
+    if not box.get("limited"):
+        obs.append({"kind": "limit on a stack deeper than the recursion limit", "detail": {}})
+    return {"obs": obs, "stats": {"slices": 2, "frames": ntrue}}
+
+
 def handle(req):
+    if req["op"] == "slices.hub":
+        return run_hub(req)
     if req["op"] == "slices.plan":
         return run_plan(req)
     raise AssertionError(req["op"])
